@@ -122,6 +122,9 @@ pub fn check_valid(ctx: &Ctx, els: &[El], trailing: bool) -> Result<(), Fail> {
         Err(e) => fail!("c15:valid-list-rejected", "parse_meta_list rejects the valid list `{}`: {}", src, e),
     };
     ensure!(items.len() == els.len(), "c15:item-count", "`{}` has {} elements, parse gave {}", src, els.len(), items.len());
+    if let Ok(ts) = src.parse::<proc_macro2::TokenStream>() {
+        agree_with_meta_list_entry(&src, &ts, &Ok(items.clone()))?;
+    }
     for (i, (it, el)) in items.iter().zip(els.iter()).enumerate() {
         let is_lit = matches!(it, NestedMeta::Lit(_));
         ensure!(
@@ -205,6 +208,31 @@ pub fn mutate(d: &mut D, els: &[El]) -> Mutant {
     }
 }
 
+/// The second way into the splitter: the contents of a `syn::MetaList` (`w( .. )`, what nested lists, attributes
+/// and struct-variant bodies go through). It must agree with `parse_meta_list` on the same tokens.
+fn agree_with_meta_list_entry(src: &str, ts: &proc_macro2::TokenStream, direct: &syn::Result<Vec<NestedMeta>>) -> Result<(), Fail> {
+    let list = syn::MetaList {
+        path: syn::parse_str("w").unwrap(),
+        delimiter: syn::MacroDelimiter::Paren(Default::default()),
+        tokens: ts.clone(),
+    };
+    let via = match catch(|| NestedMeta::parse_meta_list_of(&list)) {
+        Ok(r) => r,
+        Err(p) => fail!("c15:panic", "parse_meta_list_of(`w({})`) panicked: {}", src, p),
+    };
+    match (direct, &via) {
+        (Ok(a), Ok(b)) => {
+            let pa: Vec<String> = a.iter().map(|x| canon_tokens(quote::quote!(#x))).collect();
+            let pb: Vec<String> = b.iter().map(|x| canon_tokens(quote::quote!(#x))).collect();
+            ensure!(pa == pb, "c15:entries-disagree:items", "`{}`: parse_meta_list gives {:?}, parse_meta_list_of(w(..)) gives {:?}", src, pa, pb);
+        }
+        (Err(_), Err(_)) => {}
+        (Ok(a), Err(e)) => fail!("c15:entries-disagree:rejected-as-meta-list", "`{}` splits into {} items as a token stream but `w({})` is rejected: {}", src, a.len(), src, e),
+        (Err(e), Ok(b)) => fail!("c15:entries-disagree:accepted-as-meta-list", "`{}` is rejected as a token stream ({}) but `w({})` splits into {} items", src, e, src, b.len()),
+    }
+    Ok(())
+}
+
 pub fn check_mutant(ctx: &Ctx, m: &Mutant) -> Result<(), Fail> {
     fresh_spans();
     ctx.set_render(json!(m));
@@ -215,10 +243,11 @@ pub fn check_mutant(ctx: &Ctx, m: &Mutant) -> Result<(), Fail> {
             return Ok(());
         }
     };
-    let r = match catch(|| NestedMeta::parse_meta_list(ts)) {
+    let r = match catch(|| NestedMeta::parse_meta_list(ts.clone())) {
         Ok(r) => r,
         Err(p) => fail!("c15:panic", "parse_meta_list(`{}`) panicked: {}", m.src, p),
     };
+    agree_with_meta_list_entry(&m.src, &ts, &r)?;
     ctx.class(&format!("mutant:{}:{}", m.kind.split('-').next().unwrap_or(""), if r.is_ok() { "accepted" } else { "rejected" }));
     match r {
         Ok(items) => {
